@@ -28,7 +28,7 @@ func main() {
 	cf.Checks = []lib.Check{{Name: "tie", Kind: "tie", Fn: "gb_tie"}, {Name: "spec", Kind: "spec", Fn: "c17_spec"}}
 	cf.Side.Rule = "bounded-exhaustive: every valid changelog over {+k1, +k2, -k1, -k2, WM} up to 6 events (k1 = time 2, k2 = time 4, i-th watermark = 2i-1), " +
 		"event time = key instant or zero, for [COUNTING 2], [COUNTING 3], [ON WATERMARK], [ON WATERMARK; ON END OF STREAM], [], [COUNTING 2; ON WATERMARK] " +
-		"(thorough: all up to length 5 and a seeded sample of length 6; quick: a seeded sample of 200); plus random cases from the C16 generator, " +
+		"(thorough: all up to length 5 and a seeded sample of length 6; quick: a seeded sample of 200); every valid sequence over {+kNull, -kNull, +k1, WM} up to 3 events (kNull: NULL time key) for [ON WATERMARK] and [COUNTING 2; ON WATERMARK]; plus random cases from the C16 generator, " +
 		"2/3 of them with a pure trigger configuration; " + gb.Rule
 
 	// the enumeration
@@ -53,8 +53,13 @@ func main() {
 	}
 	cf.Side.Distribution["exhaustive_run"] = len(chosen)
 	for _, c := range chosen {
-		gb.RunCase(cf, c.Cfg, c.Script, "exhaustive")
+		gb.RunCase(cf, c.Cfg, "exhaustive", gb.Priming(c.Cfg, c.Script), c.Script)
 		cf.Count(fmt.Sprintf("exhaustive_len_%d", c.Len))
+	}
+
+	// ON WATERMARK with a NULL time key: the whole small family, every run
+	for _, c := range gb.NullTimeFamily() {
+		gb.RunCase(cf, c.Cfg, "null_time_key_family", gb.Priming(c.Cfg, c.Script), c.Script)
 	}
 
 	// the random stream
